@@ -7,7 +7,21 @@ exact up to the final divisions (compared to 1e-12).
 Search: conservation / containment / mid-point / marginal clauses on the implementation over random float tables and
 adversarial (max, w) pairs (w decimal, max = k*w computed in floats); the data path of TimeSeries.plot_cycle_range and
 app.funcs.calculate_rfc.
+
+Audit round (after three rounds of seeded changes): an independent reference in exact rational arithmetic (`interval_oracles`:
+number of bins, mid-points and per-bin counts computed from the table and the bin specification with Fractions; values closer to
+an edge than float rounding may fall on either side) is evaluated on every stream, so that no clause is decided by comparing the
+implementation with itself.  New streams (all inputs are JSON dictionaries evaluated by `eval_case` / `eval_hist` / `eval_entry`,
+which `replay()` calls as well):
+  case   spelling of the table (ndarray C/F/view/read-only/float32/int, lists, tuples, rows as ndarrays, numpy scalars, mixed
+         int/float) x spelling of the arguments (keyword, positional, defaults, n and w both given, explicit None, numpy integer /
+         float32 / Python int numbers); boundary values (one / two rows, all ranges zero, all means equal, w equal to / above the
+         span, values on edges, n up to 1000, tables scaled by 2^p with |p| <= 200, means on offsets up to 2^40, non-dyadic counts)
+  hist   histories on one object mixing n / w / bin-by / mesh / rejected calls and a second table with the same span
+  entry  TimeSeries.plot_cycle_range / plot_cycle_rangemean / plot_cycle_rangemean3d, TsDB.plot_cycle_range / plot_cycle_rangemean
+         (data handed to matplotlib, observed by a recorder), calculate_rfc; second call after the data changed
 """
+import math
 from fractions import Fraction
 
 import numpy as np
@@ -16,7 +30,9 @@ from .. import core
 from ..core import rat
 
 RULE = ("dyadic cycle tables (1-12 rows) x binby {range, mean} x n in 1..9 / w in {1/4,1/2,1,2,3/2,...}; float search: random tables and "
-        "adversarial (max,w) pairs with decimal widths; non-trivial = at least 2 rows and 2 bins; distinct by (table, binby, spec)")
+        "adversarial (max,w) pairs with decimal widths; case / hist / entry streams: table container x argument spelling x boundary "
+        "values (scales 2^p, offsets, w = span, n up to 1000) x histories on one object x plotting entry points, every result judged by "
+        "the exact-rational interval reference; non-trivial = at least 2 rows and 2 bins; distinct by (table, binby, spec)")
 
 
 def close(a, b, tol=1e-12):
@@ -48,7 +64,7 @@ def impl_rebin(t, binby, n=None, w=None):
     from qats.fatigue.rainflow import rebin
     arr = np.array([[float(v) for v in row] for row in t])
     out = rebin(arr, binby=binby, n=n, w=None if w is None else float(w))
-    return [[None if np.isnan(v) else float(v) for v in row] for row in out]
+    return _rows_out(out)
 
 
 def parse_rows(o):
@@ -56,8 +72,9 @@ def parse_rows(o):
     return [[None if v == "nan" else float(Fraction(v)) for v in r.split(",")] for r in body.split(";")] if body else []
 
 
-def conservation_oracles(chk, t, binby, spec, out, inp, degenerate=False):
-    """property clauses on the implementation's result (float table `t` as list of tuples of floats)"""
+def conservation_oracles(chk, t, binby, spec, out, inp, degenerate=False, ctol=0.0):
+    """property clauses on the implementation's result (float table `t` as list of tuples of floats);
+    `ctol`: absolute slack for mid-point comparisons = a few units in the last place of the largest edge (tables on large offsets)"""
     tot = sum(c for _, _, c in t)
     btot = sum(row[2] for row in out)
     if abs(btot - tot) > 1e-9 * max(1.0, tot):
@@ -75,16 +92,670 @@ def conservation_oracles(chk, t, binby, spec, out, inp, degenerate=False):
     prim = [row[0 if binby == "range" else 1] for row in out]
     if len(prim) >= 2 and not degenerate:
         d = [b - a for a, b in zip(prim, prim[1:])]
-        if any(x <= 0 for x in d) or max(d) - min(d) > 1e-9 * max(1.0, abs(prim[-1])):
+        if any(x <= 0 for x in d) or max(d) - min(d) > 1e-9 * max(1.0, abs(prim[-1])) + 4 * ctol:
             chk.fail("bin mid-points equidistant and increasing", inp, "equidistant", prim[:6], clause="mid")
         # containment: every cycle lies in a bin [mid-h/2, mid+h/2] that holds at least its count
         h = d[0]
         for r, m, c in t:
             v = r if binby == "range" else m
             j = min(range(len(prim)), key=lambda k: abs(prim[k] - v))
-            if abs(prim[j] - v) > h / 2 * (1 + 1e-9) + 1e-12:
+            if abs(prim[j] - v) > h / 2 * (1 + 1e-9) + 1e-12 + 2 * ctol:
                 chk.fail("every cycle lies in the bin whose interval contains it", inp, v, prim, clause="contain")
                 break
+
+
+# =====================================================================================================================
+# independent reference (exact rational arithmetic) and the evaluators shared by run() and replay()
+# =====================================================================================================================
+EDGE_TOL = 1e-14      # rounding of float edges / mid-points relative to the largest edge (about 45 units in the last place)
+
+
+class Sink:
+    """stand-in for core.Check in replay(): collects / prints failing clauses"""
+
+    def __init__(self, verbose=True):
+        self.failing, self.verbose = [], verbose
+
+    def fail(self, oracle, inp, expected, observed, **kw):
+        self.failing.append(dict(oracle=oracle, expected=expected, observed=observed, **kw))
+        if self.verbose:
+            print("FAILS: %s\n   expected %s\n   observed %s" % (oracle, str(expected)[:300], str(observed)[:300]))
+
+    def disagree(self, *a, **k):
+        pass
+
+    def count(self, *a, **k):
+        pass
+
+    def nontriv(self, *a, **k):
+        pass
+
+    def dist(self, *a, **k):
+        pass
+
+    def sample(self, *a, **k):
+        pass
+
+
+def _rows_out(out):
+    a = np.asarray(out, dtype=float)
+    if a.ndim != 2 or a.shape[1] != 3:
+        raise ValueError("result of rebin has shape %s, expected (bins, 3)" % (a.shape,))
+    return [[None if np.isnan(v) else float(v) for v in row] for row in a]
+
+
+
+def exact_spec(t, binby, kind, val):
+    """start, stop, width and number of the bins the specification describes, in exact arithmetic on the table's float values:
+    range bins start at 0, mean bins at the smallest mean; n bins over [start, stop] or bins of width w from start up to stop"""
+    prim = [Fraction(r if binby == "range" else m) for r, m, _ in t]
+    start = Fraction(0) if binby == "range" else min(prim)
+    stop = max(prim)
+    if kind == "n":
+        n = int(val)
+        return prim, start, stop, (stop - start) / n, n
+    w = Fraction(val)
+    return prim, start, stop, w, max(math.ceil((stop - start) / w), 1)
+
+
+def interval_oracles(chk, t, binby, kind, val, out, inp):
+    """'puts every cycle in the bin whose interval contains it, and reports bin mid-points (empty bins carry count 0)', judged
+    against bins computed exactly from the table and the specification.  A value closer to an edge than the rounding of the float
+    edges (1e-14 of the largest edge, about 45 units in the last place) may be counted on either side.  `out` rows: [range, mean, count] (None = nan)."""
+    pcol = 0 if binby == "range" else 1
+    P, N = [row[pcol] for row in out], [row[2] for row in out]
+    if len(out) == 0 or any(p is None for p in P) or any(c is None for c in N):
+        chk.fail("bins report mid-points and counts (no nan, at least one bin)", inp, "numbers", [P[:6], N[:6]], clause="mid-exact")
+        return
+    prim, start, stop, h, L = exact_spec(t, binby, kind, val)
+    if kind == "n" and len(out) != L:
+        chk.fail("grouping by number of bins n gives n bins", inp, L, len(out), clause="nbins")
+        return
+    Lo = len(out)
+    scale = float(max(abs(start), abs(stop), abs(start + Lo * h)))
+    mtol, delta = EDGE_TOL * scale, Fraction(EDGE_TOL * scale)
+    tot = sum(c for _, _, c in t)
+    ctol = 1e-9 * max(tot, 1e-300)
+    if h == 0:
+        # all primary values equal and n bins over [a, a]: every edge is a; any bin's interval contains the cycles
+        if any(abs(p - float(start)) > mtol for p in P):
+            chk.fail("bins report mid-points (all edges equal the single value)", inp, float(start), P[:6], clause="mid-exact")
+        return
+    if start + Lo * h < stop - delta:
+        chk.fail("every cycle lies in the bin whose interval contains it (bins of width w from the start reach the largest value)", inp,
+                 float(stop), float(start + Lo * h), clause="contain-exact")
+        return
+    for j in range(Lo):
+        e = float(start + (2 * j + 1) * h / 2)
+        if not abs(P[j] - e) <= mtol:
+            chk.fail("bins report mid-points of the equidistant bins the specification describes", inp, dict(bin=j, mid=e), P[j],
+                     clause="mid-exact")
+            return
+    S, A = [0.0] * Lo, [0.0] * Lo
+    for v, (_, _, c) in zip(prim, t):
+        j = min(max(math.floor((v - start) / h), 0), Lo - 1)
+        lo = start + j * h
+        cand = {j}
+        if j > 0 and v - lo <= delta:
+            cand.add(j - 1)
+        if j + 1 < Lo and lo + h - v <= delta:
+            cand.add(j + 1)
+        if len(cand) == 1:
+            S[j] += c
+        else:
+            for k in cand:
+                A[k] += c
+    for j in range(Lo):
+        if not (S[j] - ctol <= N[j] <= S[j] + A[j] + ctol):
+            chk.fail("every cycle is counted in the bin whose interval contains it (empty bins carry count 0)", inp,
+                     dict(bin=j, interval=[float(start + j * h), float(start + (j + 1) * h)], count_between=[S[j], S[j] + A[j]]), N[j],
+                     clause="contain-exact")
+            return
+
+
+def all_rebin_oracles(chk, t, binby, kind, val, out, inp, secondary=True):
+    """every clause of the property about one re-binning; `t` = the table as floats, `out` = rows with None for nan"""
+    prim = [row[0 if binby == "range" else 1] for row in out]
+    ps = [Fraction(r if binby == "range" else m) for r, m, _ in t]
+    degenerate = (binby == "range" and all(r == 0 for r, _, _ in t) and kind == "n") or \
+        (binby == "mean" and len(set(m for _, m, _ in t)) == 1 and kind == "n")
+    if secondary and len(out) and all(p is not None for p in prim) and all(row[2] is not None for row in out):
+        sc = max(abs(float(min(ps))), abs(float(max(ps))), abs(prim[-1]))
+        conservation_oracles(chk, t, binby, (kind, val), out, inp, degenerate=degenerate, ctol=16 * 2.3e-16 * sc)
+        # the same clause without an absolute floor (tables in other units: 2^-200 ...)
+        sec = 1 if binby == "range" else 0
+        wsum = math.fsum(c * (m if binby == "range" else r) for r, m, c in t)
+        wabs = math.fsum(abs(c * (m if binby == "range" else r)) for r, m, c in t)
+        bsum = math.fsum(row[2] * row[sec] for row in out if row[2] > 0 and row[sec] is not None)
+        if not abs(bsum - wsum) <= 1e-9 * wabs:
+            chk.fail("count-weighted sum of the other quantity conserved (relative to the table's magnitude)", inp, wsum, bsum,
+                     clause="weighted-rel")
+    else:
+        tot, btot = sum(c for _, _, c in t), sum(row[2] for row in out if row[2] is not None)
+        if not abs(btot - tot) <= 1e-9 * max(1.0, tot):
+            chk.fail("total cycle count conserved", inp, tot, btot, clause="total")
+    interval_oracles(chk, t, binby, kind, val, out, inp)
+
+
+def mesh_oracles(chk, t, nr, nm, res, inp):
+    """mesh clauses: same total; marginal sums equal the one-dimensional re-binnings (which are judged by the exact reference)"""
+    from qats.fatigue.rainflow import rebin
+    try:
+        cm = np.asarray(res[2], dtype=float)
+        m0, m1 = cm.sum(axis=0), cm.sum(axis=1)
+    except Exception as e:
+        chk.fail("mesh returns (range mesh, mean mesh, count mesh)", inp, "three 2-d arrays", "%s: %s" % (type(e).__name__, str(e)[:80]),
+                 clause="mesh-shape")
+        return
+    tot = sum(c for _, _, c in t)
+    if not abs(float(cm.sum()) - tot) <= 1e-9 * max(1.0, tot):
+        chk.fail("mesh total == table total", inp, tot, float(cm.sum()), clause="mesh-total")
+    for binby, n, marg, ok in (("range", nr, m0, any(r > 0 for r, _, _ in t)), ("mean", nm, m1, len(set(m for _, m, _ in t)) >= 2)):
+        if not ok:
+            continue
+        try:
+            rb = _rows_out(rebin(np.array(t, dtype=float), binby=binby, n=n))
+        except Exception as e:
+            chk.fail("rebin must not raise on a valid table", inp, "table", "%s: %s" % (type(e).__name__, str(e)[:80]), clause="raise")
+            continue
+        if len(marg) != len(rb) or not all(abs(a - row[2]) <= 1e-9 * max(1.0, tot) for a, row in zip(marg, rb)):
+            chk.fail("mesh marginal sums == one-dimensional re-binning by %s" % binby, inp, [row[2] for row in rb][:8],
+                     np.asarray(marg).tolist()[:8], clause="mesh-marginal")
+        interval_oracles(chk, t, binby, "n", n, rb, inp)
+
+
+# ---- spelling of the table and of the arguments ------------------------------------------------------------------------------------
+FORMS = ["ndarray", "ndarray-F", "ndarray-view", "ndarray-readonly", "ndarray-float32", "ndarray-int", "list-of-lists",
+         "list-of-tuples", "tuple-of-tuples", "list-of-ndarrays", "list-np-scalars", "tuple-of-lists"]
+
+
+def whole_table(rows):
+    return all(float(v) == int(v) and abs(v) < 2 ** 31 for row in rows for v in row)
+
+
+def build_table(form, rows):
+    """(object handed to the implementation, the table it denotes as tuples of Python floats)"""
+    seen = [tuple(float(v) for v in row) for row in rows]
+    if form == "ndarray":
+        return np.array(seen), seen
+    if form == "ndarray-F":
+        return np.asfortranarray(np.array(seen)), seen
+    if form == "ndarray-view":
+        big = np.full((2 * len(seen) + 1, 5), 777.0)
+        big[1::2, 1:4] = seen
+        return big[1::2, 1:4], seen
+    if form == "ndarray-readonly":
+        a = np.array(seen)
+        a.setflags(write=False)
+        return a, seen
+    if form == "ndarray-float32":
+        a = np.array(seen, dtype=np.float32)
+        return a, [tuple(float(v) for v in row) for row in a]
+    if form == "ndarray-int":
+        return np.array([[int(v) for v in row] for row in rows], dtype=int), seen
+    if form == "list-of-lists":
+        return [list(row) for row in rows], seen
+    if form == "list-of-tuples":
+        return [tuple(row) for row in rows], seen
+    if form == "tuple-of-tuples":
+        return tuple(tuple(row) for row in rows), seen
+    if form == "tuple-of-lists":
+        return tuple(list(row) for row in rows), seen
+    if form == "list-of-ndarrays":
+        return [np.array([float(v) for v in row]) for row in rows], seen
+    if form == "list-np-scalars":
+        return [[np.int64(v) if isinstance(v, int) else np.float64(v) for v in row] for row in rows], seen
+    raise ValueError("unknown table form %r" % (form,))
+
+
+def num(v, typ):
+    return {"int": int, "float": float, "np.int64": np.int64, "np.int32": np.int32, "np.float64": np.float64,
+            "np.float32": np.float32}[typ](v)
+
+
+def call_rebin(obj, binby, spec):
+    """spec: dict(style=kw|pos|default-binby|both|explicit-none, n=.., w=.., ntype=.., wtype=..); returns (result, kind, value)"""
+    from qats.fatigue.rainflow import rebin
+    st = spec.get("style", "kw")
+    n = None if spec.get("n") is None else num(spec["n"], spec.get("ntype", "int"))
+    w = None if spec.get("w") is None else num(spec["w"], spec.get("wtype", "float"))
+    kind, val = ("w", float(w)) if w is not None else ("n", int(n))
+    if st == "kw":
+        out = rebin(obj, binby=binby, **({"w": w} if kind == "w" else {"n": n}))
+    elif st == "pos":
+        out = rebin(obj, binby, None, w) if kind == "w" else rebin(obj, binby, n)
+    elif st == "default-binby":
+        assert binby == "range"
+        out = rebin(obj, **({"w": w} if kind == "w" else {"n": n}))
+    elif st == "both":          # n given although w is: the width decides
+        out = rebin(obj, binby=binby, n=n, w=w)
+    elif st == "explicit-none":
+        out = rebin(obj, binby=binby, n=n, w=w)
+    else:
+        raise ValueError("unknown call style %r" % (st,))
+    return out, kind, val
+
+
+def call_mesh(obj, spec):
+    from qats.fatigue.rainflow import mesh
+    st = spec.get("style", "kw")
+    if st == "default":
+        return mesh(obj), 100, 100
+    nr, nm = num(spec["nr"], spec.get("ntype", "int")), num(spec["nm"], spec.get("ntype", "int"))
+    if st == "pos":
+        return mesh(obj, nr, nm), int(nr), int(nm)
+    if st == "swapped-kw":
+        return mesh(obj, nm=nm, nr=nr), int(nr), int(nm)
+    return mesh(obj, nr=nr, nm=nm), int(nr), int(nm)
+
+
+def eval_case(chk, inp):
+    """one grouping of one table: inp = dict(kind='case', table=[[r, m, c], ...] (JSON numbers), form=.., op='rebin'|'mesh',
+    binby=.., spec={...})"""
+    try:
+        obj, seen = build_table(inp.get("form", "ndarray"), inp["table"])
+    except Exception as e:       # harness side: cannot happen for generated inputs
+        raise core.InfraError("cannot build table %r: %s" % (inp, e))
+    try:
+        if inp["op"] == "mesh":
+            res, nr, nm = call_mesh(obj, inp["spec"])
+        else:
+            res, kind, val = call_rebin(obj, inp["binby"], inp["spec"])
+            res = _rows_out(res)
+    except Exception as e:
+        chk.fail("rebin/mesh must not raise on a valid table (whatever container / number type holds it, however the arguments are "
+                 "passed)", inp, "table", "%s: %s" % (type(e).__name__, str(e)[:100]), clause="raise")
+        return
+    if inp["op"] == "mesh":
+        mesh_oracles(chk, seen, nr, nm, res, inp)
+    else:
+        all_rebin_oracles(chk, seen, inp["binby"], kind, val, res, inp)
+
+
+def eval_hist(chk, inp):
+    """a history on one object per table: inp = dict(kind='hist', tables=[T0, T1], form=.., steps=[dict(t=0|1, op=.., binby=..,
+    spec=..) | dict(t=.., op='reject', how=..) | dict(t=.., op='mutate', row=.., values=[r, m, c])]); clauses evaluated after every step; stops at the first failing step"""
+    from qats.fatigue.rainflow import rebin
+    built = [list(build_table(inp.get("form", "ndarray"), T)) for T in inp["tables"]]
+    for i, st in enumerate(inp["steps"]):
+        obj, seen = built[st.get("t", 0)]
+        sub = dict(inp, steps=inp["steps"][:i + 1])
+        if st["op"] == "mutate":
+            # the caller changes a row of the table he holds (writable ndarray / list of rows); later groupings are of the new table
+            try:
+                if isinstance(obj, np.ndarray):
+                    obj[st["row"]] = st["values"]
+                else:
+                    obj[st["row"]] = type(obj[st["row"]])(st["values"])
+            except (TypeError, ValueError):
+                continue                     # read-only array / tuple of rows: nothing changes
+            seen[st["row"]] = tuple(float(v) for v in st["values"])
+            continue
+        if st["op"] == "reject":
+            # calls outside the quantifier (unknown bin-by, neither n nor w, no bins): whatever they do, later groupings must be right
+            try:
+                if st["how"] == "binby":
+                    rebin(obj, binby="Range", n=2)
+                elif st["how"] == "nospec":
+                    rebin(obj, binby="mean")
+                else:
+                    rebin(obj, binby="range", n=0)
+            except Exception:
+                pass
+            continue
+        before = len(chk.failing)
+        try:
+            if st["op"] == "mesh":
+                res, nr, nm = call_mesh(obj, st["spec"])
+            else:
+                res, kind, val = call_rebin(obj, st["binby"], st["spec"])
+                res = _rows_out(res)
+        except Exception as e:
+            chk.fail("rebin/mesh must not raise on a valid table (same object grouped before)", sub, "table",
+                     "%s: %s" % (type(e).__name__, str(e)[:100]), clause="raise")
+            return
+        if st["op"] == "mesh":
+            mesh_oracles(chk, seen, nr, nm, res, sub)
+        else:
+            all_rebin_oracles(chk, seen, st["binby"], kind, val, res, sub)
+        if len(chk.failing) > before:
+            return
+
+
+# ---- entry points: what the plotting methods hand to matplotlib, calculate_rfc -------------------------------------------------------
+class _Recorder:
+    """stands in for pyplot functions, figures and axes: records every call and returns itself"""
+
+    def __init__(self):
+        self.calls = []
+
+    def __getattr__(self, name):
+        if name.startswith("__"):
+            raise AttributeError(name)
+
+        def f(*a, **k):
+            self.calls.append((name, a, k))
+            return self
+        return f
+
+    def __iter__(self):                      # `fig, ax = plt.subplots()`
+        return iter((self, self))
+
+    def get(self, name):
+        return [(a, k) for n_, a, k in self.calls if n_ == name]
+
+
+PLT_NAMES = ["figure", "bar", "scatter", "plot", "xlabel", "ylabel", "grid", "legend", "savefig", "show", "title", "subplots", "gcf",
+             "gca", "close", "tight_layout"]
+
+
+def recorded(fn):
+    """run fn() with matplotlib.pyplot's functions replaced by a recorder (nothing is drawn); returns the recorder"""
+    import matplotlib.pyplot as plt
+    rec = _Recorder()
+    saved = {k: getattr(plt, k) for k in PLT_NAMES if hasattr(plt, k)}
+    try:
+        for k in saved:
+            setattr(plt, k, getattr(rec, k))
+        fn()
+    finally:
+        for k, v in saved.items():
+            setattr(plt, k, v)
+    return rec
+
+
+def _spec_of(kw, default_n):
+    if kw.get("w") is not None:
+        return "w", float(kw["w"])
+    return "n", int(kw.get("n", default_n))
+
+
+def _judge_plot(chk, method, rec, tables, kw, inp):
+    """tables: {label suffix: cycle table (list of float tuples)}"""
+    if method.endswith("plot_cycle_range"):
+        bars = rec.get("bar")
+        if len(bars) != len(tables):
+            chk.fail("plot_cycle_range draws one histogram per series", inp, len(tables), len(bars), clause="entry")
+            return
+        kind, val = _spec_of(kw, 200)
+        for (a, k), (name, t) in zip(bars, tables.items()):
+            lab = str(k.get("label", ""))
+            tt = next((tb for nm_, tb in tables.items() if lab.endswith(nm_)), t)
+            out = [[float(r), None, float(c)] for r, c in zip(a[0], a[1])]
+            all_rebin_oracles(chk, tt, "range", kind, val, out, inp, secondary=False)
+    elif method.endswith("plot_cycle_rangemean"):
+        sc = rec.get("scatter")
+        if len(sc) != len(tables):
+            chk.fail("plot_cycle_rangemean draws one scatter per series", inp, len(tables), len(sc), clause="entry")
+            return
+        kind, val = _spec_of(kw, None)
+        for (a, k), (name, t) in zip(sc, tables.items()):
+            lab = str(k.get("label", ""))
+            tt = next((tb for nm_, tb in tables.items() if lab.endswith(nm_)), t)
+            size = k["s"] if "s" in k else a[2]
+            out = _rows_out(np.array([np.asarray(a[1], float), np.asarray(a[0], float), np.asarray(size, float) / 2.0]).T)
+            all_rebin_oracles(chk, tt, "range", kind, val, out, inp)
+    else:   # 3d
+        sf = rec.get("plot_surface")
+        if len(sf) != 1:
+            chk.fail("plot_cycle_rangemean3d draws one surface", inp, 1, len(sf), clause="entry")
+            return
+        a = sf[0][0]
+        mesh_oracles(chk, next(iter(tables.values())), int(kw.get("nr", 100)), int(kw.get("nm", 100)), (a[0], a[1], a[2]), inp)
+
+
+def eval_entry(chk, inp):
+    """inp = dict(kind='entry', method=.., x=[...], x2=[...]|None, kw={...}, names=.., then=dict(x=.., kw=..)|None)"""
+    from qats import TimeSeries, TsDB
+    from qats.fatigue.rainflow import count_cycles
+    from qats.app.funcs import calculate_rfc
+    method = inp["method"]
+    x = np.array(inp["x"], dtype=float)
+    ts = TimeSeries("a", np.arange(len(x), dtype=float), x.copy())
+    series = {"a": ts}
+    if inp.get("x2") is not None:
+        x2 = np.array(inp["x2"], dtype=float)
+        series["b"] = TimeSeries("b", np.arange(len(x2), dtype=float), x2.copy())
+    db = None
+    if method.startswith("db."):
+        db = TsDB()
+        for s_ in series.values():
+            db.add(s_)
+    rounds = [(None, inp["kw"])] + ([(inp["then"]["x"], inp["then"]["kw"])] if inp.get("then") else [])
+    for i, (newx, kw) in enumerate(rounds):
+        sub = inp if i == len(rounds) - 1 else dict(inp, then=None)
+        if newx is not None:
+            ts.x = np.array(newx, dtype=float)      # the series' data replaced between two requests
+        tables = {}
+        for nm_, s_ in series.items():
+            if inp.get("names") is not None and nm_ not in inp["names"]:
+                continue
+            tables[nm_] = [tuple(float(v) for v in row) for row in count_cycles(np.array(s_.x, dtype=float))]
+        try:
+            if method == "calculate_rfc":
+                got = calculate_rfc({"a": ts}, (0.0, float(len(x))), None, kw["n"])["a"]
+                out = [[float(r), None, float(c)] for r, c in zip(got[0], got[1])]
+                all_rebin_oracles(chk, tables["a"], "range", "n", kw["n"], out, sub, secondary=False)
+                continue
+            if method.startswith("db."):
+                names = inp.get("names")
+                rec = recorded(lambda: getattr(db, method[3:])(names=names, show=False, **kw))
+            else:
+                rec = recorded(lambda: getattr(ts, method[3:])(show=False, **kw))
+            _judge_plot(chk, method, rec, tables, kw, sub)
+        except Exception as e:
+            chk.fail("the cycle histogram / mesh of a series is available through %s for every n >= 1 / w > 0 that gives at least two "
+                     "bins" % method, sub, "grouped cycles", "%s: %s" % (type(e).__name__, str(e)[:100]), clause="raise")
+            return
+
+
+EVAL = {"case": eval_case, "hist": eval_hist, "entry": eval_entry}
+
+
+# ---- generators (every choice from chk.rng) --------------------------------------------------------------------------------------------
+def gen_rows(rng, k=None, whole=None, counts=(0.5, 1, 1, 1, 2, 3, 2.5)):
+    """small table on a quarter grid; Python ints where the value is whole (so that lists mix int and float)"""
+    k = k or rng.choice([1, 1, 2, 2, 3, 4, 6, 9])
+    whole = rng.random() < 0.3 if whole is None else whole
+    rows = []
+    g = 4 if whole or rng.random() < 0.7 else 10        # quarter grid (exact in float32 as well) or decimal grid
+    for _ in range(k):
+        r = rng.randint(0, 12) if whole or rng.random() < 0.4 else rng.randint(0, 12 * g) / g
+        m = rng.randint(-6, 6) if whole or rng.random() < 0.4 else rng.randint(-6 * g, 6 * g) / g
+        c = rng.choice([1, 1, 2, 3]) if whole else rng.choice(counts)
+        rows.append([r, m, c])
+    u = rng.random()
+    if u < 0.08:
+        rows = [[0, m, c] for r, m, c in rows]                  # all ranges zero
+    elif u < 0.16:
+        rows = [[r, rows[0][1], c] for r, m, c in rows]         # all means equal
+    elif u < 0.22:
+        rows = [[rows[0][0], m, c] for r, m, c in rows]         # all ranges equal
+    return rows
+
+
+def gen_spec(rng, rows, binby):
+    """bin specification with the boundary values: w equal to / above / a fraction of the span, n = 1 ... 1000, numpy number types"""
+    prim = [float(r[0] if binby == "range" else r[1]) for r in rows]
+    span = (max(prim) - 0.0) if binby == "range" else (max(prim) - min(prim))
+    spec = {}
+    if rng.random() < 0.5:
+        spec["n"] = rng.choice([1, 1, 2, 3, 4, 5, 7, 10, 16, 64, 100, 200, 1000])
+        spec["ntype"] = rng.choice(["int", "int", "np.int64", "np.int32"])
+        spec["style"] = rng.choice(["kw", "kw", "pos", "explicit-none"] + (["default-binby"] if binby == "range" else []))
+    else:
+        cands = [0.25, 0.5, 1, 2, 1.5, 5, 0.75, 3, 0.1, 0.3, 0.7, 100]
+        if span > 0:
+            cands += [span, span, 2 * span, span / 2, span / 3, span / 4, span + 0.25, span / 200]
+        w = rng.choice(cands)
+        spec["w"] = w
+        types = ["float", "np.float64"]
+        if float(w) == int(w):
+            types += ["int", "int", "np.int64"]
+        if float(np.float32(w)) == float(w):
+            types.append("np.float32")
+        spec["wtype"] = rng.choice(types)
+        if spec["wtype"] in ("int", "np.int64"):
+            spec["w"] = int(w)
+        spec["style"] = rng.choice(["kw", "kw", "pos", "both", "explicit-none"] + (["default-binby"] if binby == "range" else []))
+        if spec["style"] == "both":
+            spec["n"] = rng.choice([1, 2, 3, 7, 200])
+    return spec
+
+
+def gen_mesh_spec(rng):
+    if rng.random() < 0.06:
+        return {"style": "default"}
+    return {"style": rng.choice(["kw", "kw", "pos", "swapped-kw"]), "nr": rng.choice([1, 2, 3, 5, 8, 16, 50]), "nm": rng.choice([1, 2, 3, 4, 7, 20]),
+            "ntype": rng.choice(["int", "int", "np.int64"])}
+
+
+def pick_form(rng, rows):
+    forms = [f for f in FORMS if f != "ndarray-int" or whole_table(rows)]
+    return rng.choice(forms)
+
+
+def gen_case_spelling(rng):
+    rows = gen_rows(rng)
+    binby = rng.choice(["range", "mean"])
+    if rng.random() < 0.25:
+        return dict(kind="case", table=rows, form=pick_form(rng, rows), op="mesh", spec=gen_mesh_spec(rng))
+    return dict(kind="case", table=rows, form=pick_form(rng, rows), op="rebin", binby=binby, spec=gen_spec(rng, rows, binby))
+
+
+def gen_case_boundary(rng):
+    """tables in other units (x 2^p), means on large offsets, non-dyadic counts, values on edges, big n, w tied to the span"""
+    k = rng.choice([1, 2, 2, 3, 5, 8, 20]) if rng.random() < 0.99 else 600        # (now and then a table as long as a real one)
+    p = rng.choice([0, 0, 200, -200, 100, -100, 60, -60, 31, -31, 10, -10])
+    off = rng.choice([0, 0, 0, 0, 2.0 ** 20, -2.0 ** 20, 2.0 ** 30, 2.0 ** 40, -2.0 ** 35, 1e6, 12345.678, -1e9])
+    nb = rng.choice([2, 3, 4, 5, 7, 10])
+    rmax = rng.randint(1, 12) * rng.choice([1, 0.25, 0.1, 0.7])
+    mlo, mspan = rng.randint(-8, 4) * rng.choice([1, 0.5, 0.3]), rng.randint(1, 9) * rng.choice([1, 0.25, 0.1])
+    cnt = rng.choice([(0.5, 1.0), (0.5, 1.0), (0.1, 0.3, 1e-3), (1e6, 0.5, 3.0), (2.0, 2.5, 7.0)])
+    rows = []
+    for i in range(k):
+        u = rng.random()
+        r = rmax * rng.randint(0, nb) / nb if u < 0.4 else (rng.uniform(0, rmax) if u < 0.9 else rmax)     # on edges of nb bins
+        u = rng.random()
+        m = mlo + mspan * rng.randint(0, nb) / nb if u < 0.4 else (rng.uniform(mlo, mlo + mspan) if u < 0.9 else mlo)
+        rows.append([r, m, rng.choice(cnt)])
+    if k >= 2:
+        rows[rng.randrange(k)][0] = rmax
+        rows[rng.randrange(k)][1] = mlo + mspan
+    f = 2.0 ** p
+    rows = [[r * f, (m + off) * f, c] for r, m, c in rows]
+    binby = rng.choice(["range", "mean"])
+    if rng.random() < 0.25:
+        return dict(kind="case", table=rows, form="ndarray", op="mesh",
+                    spec={"style": "kw", "nr": rng.choice([1, nb, 2 * nb, 3]), "nm": rng.choice([1, nb, 2, 5])})
+    prim = [r[0] if binby == "range" else r[1] for r in rows]
+    span = max(prim) if binby == "range" else max(prim) - min(prim)
+    scale = max(abs(v) for v in prim) or 1.0
+    hmin = 2.3e-12 * scale                    # keep bins wider than 10^4 units in the last place of the values (offset tables)
+    if rng.random() < 0.5 or span <= 0:
+        n = rng.choice([1, nb, nb, 2 * nb, 2, 3, 64, 100, 1000])
+        spec = {"style": "kw", "n": n if span <= 0 or span / n > hmin else 1}
+        if span <= 0 and rng.random() < 0.5:
+            spec = {"style": "kw", "w": scale * rng.choice([1.0, 0.5, 0.1, 4.0])}
+    else:
+        w = rng.choice([span, span / nb, span / nb, span / (2 * nb), span * 2, span / 3, span * 0.7, span / 300, span * 1.0000000000000002])
+        spec = {"style": "kw", "w": w if w > hmin else max(span, 4 * hmin)}
+    return dict(kind="case", table=rows, form=rng.choice(["ndarray", "ndarray", "list-of-tuples", "ndarray-readonly"]), op="rebin",
+                binby=binby, spec=spec)
+
+
+def gen_hist(rng):
+    rows = gen_rows(rng, k=rng.choice([2, 3, 4, 6]))
+    if all(r[0] == 0 for r in rows):
+        rows[0][0] = 4
+    # a second table with the same largest range and the same extreme means but other rows
+    rmax = max(r[0] for r in rows)
+    mlo, mhi = min(r[1] for r in rows), max(r[1] for r in rows)
+    other = [[rmax, mlo, 1], [rmax / 4 if rmax / 4 != int(rmax / 4) else int(rmax / 4), mhi, 0.5]] + \
+            [[rng.randint(0, int(4 * rmax)) / 4, mlo + rng.randint(0, 4) * (mhi - mlo) / 4, rng.choice([0.5, 1, 2])] for _ in range(rng.randint(0, 3))]
+    tables = [rows, other]
+    steps = []
+    v = rng.choice([1, 2, 2, 3, 4])          # the same number used as n and as w, by range and by mean
+    for _ in range(rng.randint(2, 6)):
+        u = rng.random()
+        ti = 0 if rng.random() < 0.65 else 1
+        if u < 0.12:
+            steps.append(dict(t=ti, op="reject", how=rng.choice(["binby", "nospec", "n0"])))
+        elif u < 0.24 and steps:
+            row = list(rng.choice(tables[ti]))
+            j = rng.randrange(3)
+            row[j] = [rng.randint(1, 12), rng.randint(-6, 6), rng.choice([1, 2, 3])][j]
+            steps.append(dict(t=ti, op="mutate", row=rng.randrange(len(tables[ti])), values=row))
+            steps.append(dict(steps[-2] if steps[-2]["op"] in ("rebin", "mesh") and steps[-2]["t"] == ti and rng.random() < 0.7 else
+                              dict(t=ti, op="rebin", binby=rng.choice(["range", "mean"]), spec={"style": "kw", "n": v})))
+        elif u < 0.3:
+            steps.append(dict(t=ti, op="mesh", spec={"style": "kw", "nr": rng.choice([v, 2, 3]), "nm": rng.choice([v, 1, 2])}))
+        else:
+            binby = rng.choice(["range", "mean"])
+            if rng.random() < 0.7:
+                spec = {"style": "kw", "n": v} if rng.random() < 0.5 else {"style": "kw", "w": v, "wtype": rng.choice(["int", "float"])}
+            else:
+                spec = gen_spec(rng, tables[ti], binby)
+            steps.append(dict(t=ti, op="rebin", binby=binby, spec=spec))
+    if all(s["op"] in ("reject", "mutate") for s in steps):
+        steps.append(dict(t=0, op="rebin", binby="range", spec={"style": "kw", "n": v}))
+    form = rng.choice(["ndarray", "ndarray", "ndarray-readonly", "ndarray-view", "list-of-lists", "ndarray-F"] +
+                      (["ndarray-int"] if whole_table(rows) and whole_table(other) else []))
+    return dict(kind="hist", tables=tables, form=form, steps=steps)
+
+
+def gen_signal(rng, n=None):
+    n = n or rng.choice([12, 30, 50, 200])
+    return [rng.randint(-40, 40) / 4 for _ in range(n)]
+
+
+def gen_entry(rng):
+    from qats.fatigue.rainflow import count_cycles
+    for _ in range(20):
+        x = gen_signal(rng)
+        cyc = count_cycles(np.array(x))
+        if len(cyc) >= 2 and cyc[:, 0].max() > 0:
+            break
+    rmax = float(cyc[:, 0].max())
+    method = rng.choice(["ts.plot_cycle_range", "ts.plot_cycle_range", "ts.plot_cycle_rangemean", "ts.plot_cycle_rangemean3d",
+                         "db.plot_cycle_range", "db.plot_cycle_rangemean", "calculate_rfc"])
+
+    def kw_for(method, rmax):
+        if method == "calculate_rfc":
+            return {"n": rng.choice([1, 2, 5, 10, 256])}
+        if method.endswith("3d"):
+            return {} if rng.random() < 0.1 else {"nr": rng.choice([1, 2, 3, 10]), "nm": rng.choice([1, 2, 4, 7])}
+        single_ok = method.endswith("rangemean")
+        u = rng.random()
+        if u < 0.4:
+            return {"n": rng.choice(([1] if single_ok else []) + [2, 3, 5, 50])}
+        if u < 0.5 and method.endswith("plot_cycle_range"):
+            return {}                                         # default n = 200
+        ws = [rmax / 2, rmax / 3, rmax / 4, 0.25, 0.5, 0.3, 0.7] + ([rmax, 2 * rmax] if single_ok else [])
+        ws = [w for w in ws if w > 0 and (single_ok or w < rmax)]
+        kw = {"w": rng.choice(ws)}
+        if rng.random() < 0.3:
+            kw["n"] = rng.choice([2, 3, 7])                   # given but overridden by w
+        return kw
+    inp = dict(kind="entry", method=method, x=x, x2=None, kw=kw_for(method, rmax), names=None, then=None)
+    if method.startswith("db."):
+        for _ in range(20):
+            x2 = gen_signal(rng)
+            c2 = count_cycles(np.array(x2))
+            if len(c2) >= 2 and c2[:, 0].max() > 0:
+                break
+        inp["x2"] = x2
+        rmax = min(rmax, float(c2[:, 0].max()))
+        inp["kw"] = kw_for(method, rmax)
+        inp["names"] = rng.choice([None, None, ["a"], ["b"], ["b", "a"]])
+    elif rng.random() < 0.5:
+        for _ in range(20):
+            y = gen_signal(rng, n=len(x))
+            cy = count_cycles(np.array(y))
+            if len(cy) >= 2 and cy[:, 0].max() > 0:
+                break
+        inp["then"] = dict(x=y, kw=kw_for(method, float(cy[:, 0].max())))
+    return inp
 
 
 def run(chk):
@@ -97,6 +768,12 @@ def run(chk):
     N = 400 if chk.quick else 6000
     lines, meta = [], []
     for c in core.load_corpus("C04"):
+        if c.get("kind") in EVAL:
+            c = {k: v for k, v in c.items() if k != "note"}
+            chk.count("corpus")
+            chk.dist("corpus:" + c["kind"])
+            EVAL[c["kind"]](chk, c)
+            continue
         # corpus cases are float tables (decimal widths: the F5 shape); only the clauses on the implementation apply —
         # the exact model differs from float edge construction by design (DESIGN.md section 3)
         rows = [tuple(float(Fraction(v)) for v in row) for row in c["table"]]
@@ -104,9 +781,9 @@ def run(chk):
         inp = dict(table=[list(r) for r in rows], binby=c["binby"], kind=c["kind"], value=wv)
         chk.count("corpus")
         try:
-            out = rebin(np.array(rows), binby=c["binby"], **({"w": wv} if c["kind"] == "w" else {"n": int(wv)}))
-            out = [[None if np.isnan(v) else float(v) for v in row] for row in out]
+            out = _rows_out(rebin(np.array(rows), binby=c["binby"], **({"w": wv} if c["kind"] == "w" else {"n": int(wv)})))
             conservation_oracles(chk, rows, c["binby"], (c["kind"], wv), out, inp)
+            interval_oracles(chk, rows, c["binby"], c["kind"], wv, out, inp)
         except Exception as e:
             chk.fail("rebin must not raise on a valid table", inp, "table", type(e).__name__, clause="raise")
     for _ in range(N):
@@ -114,8 +791,15 @@ def run(chk):
         binby = rng.choice(["range", "mean"])
         if rng.random() < 0.5:
             kind, val = "n", rng.choice([1, 2, 3, 4, 5, 7, 9])
+            if rng.random() < 0.08:
+                kind, val = "n", rng.choice([16, 64, 256])      # (powers of two: the float edges stay exact)
         else:
             kind, val = "w", rng.choice([Fraction(1, 4), Fraction(1, 2), Fraction(1), Fraction(2), Fraction(3, 2), Fraction(5), Fraction(3, 4)])
+            pv = [r if binby == "range" else m for r, m, _ in t]
+            span = max(pv) - (0 if binby == "range" else min(pv))
+            if span > 0 and rng.random() < 0.2:
+                # the width tied to the table: equal to the span (largest value on the last edge), above it, a power-of-two fraction
+                kind, val = "w", rng.choice([span, 2 * span, span + Fraction(1, 4), span / 2, span / 4])
         lines.append("rebin %s %s %s %s" % (binby, kind, val if kind == "n" else rat(val), " ".join(rat(v) for row in t for v in row)))
         meta.append((t, binby, kind, val))
     M = 150 if chk.quick else 2000
@@ -138,12 +822,19 @@ def run(chk):
             im = "err:" + type(e).__name__
         degenerate = (binby == "range" and all(r == 0 for r, _, _ in t)) or (binby == "mean" and len(set(m for _, m, _ in t)) == 1)
         if isinstance(im, str):
-            if not degenerate:
-                chk.fail("rebin must not raise on a valid table", inp, "table", im, clause="raise")
-            else:
+            # (a table whose primary values are all equal is a table: the quantifier is over all non-empty tables)
+            chk.fail("rebin must not raise on a valid table", inp, "table", im, clause="raise")
+            if degenerate:
                 chk.dist("degenerate-span-raises")
             continue
-        mrows = parse_rows(o)
+        ft_ = [tuple(float(v) for v in row) for row in t]
+        interval_oracles(chk, ft_, binby, kind, val, im, inp)
+        try:
+            mrows = parse_rows(o)
+        except Exception:
+            chk.disagree("rebin", inp, o[:80], im[:6])
+            conservation_oracles(chk, ft_, binby, (kind, val), im, inp, degenerate=degenerate)
+            continue
         if degenerate:
             # all-equal primary values: numpy handles zero-width edges; only the oracles apply
             conservation_oracles(chk, [tuple(float(v) for v in row) for row in t], binby, (kind, val), im, inp, degenerate=True)
@@ -158,27 +849,43 @@ def run(chk):
         chk.count("mesh")
         inp = dict(table=[[str(v) for v in row] for row in t], nr=nr, nm=nm)
         arr = np.array([[float(v) for v in row] for row in t])
-        rm, mm, cm = mesh(arr, nr=nr, nm=nm)
-        rb, mb, cells = [s.strip() for s in o[3:].split("|")]
-        mr = [float(Fraction(v)) for v in rb.split()]
-        mmid = [float(Fraction(v)) for v in mb.split()]
-        mc = [[float(Fraction(v)) for v in row.split()] for row in cells.split(";")]
-        ok = cm.shape == (nm, nr) and all(close(a, b) for a, b in zip(mr, rm[0])) and all(close(a, b) for a, b in zip(mmid, mm[:, 0])) \
-            and all(close(a, b) for r1, r2 in zip(mc, cm) for a, b in zip(r1, r2))
+        try:
+            rm, mm, cm = mesh(arr, nr=nr, nm=nm)
+            rm, mm, cm = np.asarray(rm, dtype=float), np.asarray(mm, dtype=float), np.asarray(cm, dtype=float)
+            if not (rm.ndim == mm.ndim == cm.ndim == 2):
+                raise ValueError("mesh arrays are not 2-d: %s %s %s" % (rm.shape, mm.shape, cm.shape))
+        except Exception as e:
+            chk.fail("mesh must not raise on a valid table", inp, "table", "%s: %s" % (type(e).__name__, str(e)[:80]), clause="raise")
+            continue
+        try:
+            rb, mb, cells = [s.strip() for s in o[3:].split("|")]
+            mr = [float(Fraction(v)) for v in rb.split()]
+            mmid = [float(Fraction(v)) for v in mb.split()]
+            mc = [[float(Fraction(v)) for v in row.split()] for row in cells.split(";")]
+            ok = cm.shape == (nm, nr) and rm.shape == (nm, nr) and mm.shape == (nm, nr) and \
+                all(close(a, b) for a, b in zip(mr, rm[0])) and all(close(a, b) for a, b in zip(mmid, mm[:, 0])) \
+                and all(close(a, b) for r1, r2 in zip(mc, cm) for a, b in zip(r1, r2)) \
+                and bool(np.all(rm == rm[0])) and bool(np.all(mm == mm[:, :1]))          # (meshgrid layout)
+        except Exception:
+            ok, mr, mmid, mc = False, o[:80], None, None
         if not ok:
             chk.disagree("mesh", inp, (mr, mmid, mc), (rm[0].tolist(), mm[:, 0].tolist(), cm.tolist()))
+        mesh_oracles(chk, [tuple(float(v) for v in row) for row in t], nr, nm, (rm, mm, cm), inp)
         if len(t) >= 2 and nr * nm >= 2:
             chk.nontriv(repr(inp))
         tot = float(sum(c for _, _, c in t))
         if abs(cm.sum() - tot) > 1e-12 * max(1, tot):
             chk.fail("mesh total == table total", inp, tot, float(cm.sum()), clause="mesh-total")
+        try:
+            rb1, rb2 = impl_rebin(t, "range", n=nr), impl_rebin(t, "mean", n=nm)
+        except Exception as e:
+            chk.fail("rebin must not raise on a valid table", inp, "table", "%s: %s" % (type(e).__name__, str(e)[:80]), clause="raise")
+            continue
         if any(r > 0 for r, _, _ in t):
-            rb1 = impl_rebin(t, "range", n=nr)
-            if not all(close(a, row[2]) for a, row in zip(cm.sum(axis=0), rb1)):
+            if len(rb1) != cm.shape[1] or not all(close(a, row[2]) for a, row in zip(cm.sum(axis=0), rb1)):
                 chk.fail("mesh marginal over means == rebin by range", inp, [row[2] for row in rb1], cm.sum(axis=0).tolist(), clause="mesh-marginal")
         if len(set(m for _, m, _ in t)) >= 2:
-            rb2 = impl_rebin(t, "mean", n=nm)
-            if not all(close(a, row[2]) for a, row in zip(cm.sum(axis=1), rb2)):
+            if len(rb2) != cm.shape[0] or not all(close(a, row[2]) for a, row in zip(cm.sum(axis=1), rb2)):
                 chk.fail("mesh marginal over ranges == rebin by mean", inp, [row[2] for row in rb2], cm.sum(axis=1).tolist(), clause="mesh-marginal")
     # ---- float search: adversarial widths ------------------------------------------------------------------------------------
     F = 600 if chk.quick else 20000
@@ -195,12 +902,12 @@ def run(chk):
         inp = dict(table=[list(r) for r in rows], binby=binby, kind="w", value=w)
         chk.count("float-search")
         try:
-            out = rebin(np.array(rows), binby=binby, w=w)
+            out = _rows_out(rebin(np.array(rows), binby=binby, w=w))
         except Exception as e:
             chk.fail("rebin must not raise on a valid table", inp, "table", type(e).__name__, clause="raise")
             continue
-        out = [[None if np.isnan(v) else float(v) for v in row] for row in out]
         conservation_oracles(chk, rows, binby, ("w", w), out, inp)
+        interval_oracles(chk, rows, binby, "w", w, out, inp)
     # ---- float search, enumerated: largest range an exact decimal multiple of a decimal width (i/100 = m * j/100) -------------------
     for j in range(1, 401 if not chk.quick else 201):
         w = j / 100
@@ -210,13 +917,18 @@ def run(chk):
             chk.count("float-multiples")
             inp = dict(table=[list(r) for r in rows], binby="range", kind="w", value=w)
             try:
-                out = rebin(np.array(rows), binby="range", w=w)
+                out = np.asarray(rebin(np.array(rows), binby="range", w=w), dtype=float)
+                tot = float(np.nansum(out[:, 2]))
             except Exception as e:
                 chk.fail("rebin must not raise on a valid table", inp, "table", type(e).__name__, clause="raise")
                 continue
-            tot = float(np.nansum(out[:, 2]))
             if abs(tot - 1.5) > 1e-9:
                 chk.fail("total cycle count conserved", inp, 1.5, tot, clause="total")
+            else:
+                try:
+                    interval_oracles(chk, rows, "range", "w", w, _rows_out(out), inp)
+                except Exception as e:
+                    chk.fail("rebin returns rows (range, mean, count)", inp, "(bins, 3)", "%s: %s" % (type(e).__name__, str(e)[:80]), clause="raise")
     # ---- histories on one table object: the caller's ndarray is passed to several groupings in a row ---------------------------------
     # (the clauses are about the table the caller holds: every grouping of it must conserve its total and weighted sum and its mesh
     # marginals must equal its re-binnings, whatever was computed from the same array before)
@@ -240,13 +952,14 @@ def run(chk):
                     fresh = mesh(np.array(ft), nr=n, nm=2)[2]
                     got, exp = cm.tolist(), fresh.tolist()
                 else:
-                    got = [[None if np.isnan(v) else float(v) for v in row] for row in rebin(arr, binby=op, n=n)]
+                    got = _rows_out(rebin(arr, binby=op, n=n))
                     exp = impl_rebin(t, op, n=n)
             except Exception as e:
                 chk.fail("rebin/mesh must not raise on a valid table (same array used before)", inp, "table", type(e).__name__, clause="raise")
                 break
             if op != "mesh":
                 conservation_oracles(chk, ft, op, ("n", n), got, inp)
+                interval_oracles(chk, ft, op, "n", n, got, inp)
             elif abs(np.sum(cm) - sum(c for _, _, c in ft)) > 1e-9 * max(1, sum(c for _, _, c in ft)):
                 chk.fail("mesh total == table total (same array used before)", inp, sum(c for _, _, c in ft), float(np.sum(cm)), clause="mesh-total")
             if got != exp and not np.allclose(np.array(got, dtype=float), np.array(exp, dtype=float), rtol=1e-12, atol=1e-12, equal_nan=True):
@@ -275,8 +988,13 @@ def run(chk):
         if whole:
             forms.append(("ndarray of integers", lambda: np.array(rows, dtype=int)))
         n, binby = rng.choice([1, 2, 3, 5]), rng.choice(["range", "mean"])
-        exp = rebin(ref.copy(), binby=binby, n=n)
-        expm = mesh(ref.copy(), nr=n, nm=2)[2]
+        try:
+            exp = rebin(ref.copy(), binby=binby, n=n)
+            expm = mesh(ref.copy(), nr=n, nm=2)[2]
+        except Exception as e:
+            chk.fail("rebin/mesh must not raise on a valid table", dict(kind="container", form="ndarray of floats", table=[[repr(v) for v in row] for row in rows],
+                                                                       binby=binby, n=n), "table", "%s: %s" % (type(e).__name__, str(e)[:80]), clause="raise")
+            continue
         for label, mk in forms:
             inp = dict(kind="container", form=label, table=[[repr(v) for v in row] for row in rows], binby=binby, n=n)
             chk.count("container")
@@ -292,6 +1010,8 @@ def run(chk):
                     not np.allclose(gotm, expm, rtol=1e-12, atol=1e-12):
                 chk.fail("grouping a table gives the same result whatever container / number type holds it (total, weighted sum and bins "
                          "are those of the table's values)", inp, exp.tolist()[:6], np.asarray(got).tolist()[:6], clause="container")
+            else:
+                interval_oracles(chk, [tuple(float(v) for v in row) for row in rows], binby, "n", n, _rows_out(got), inp)
         chk.nontriv(repr((rows, binby, n)))
     # ---- entry points: TimeSeries / GUI data path ------------------------------------------------------------------------------
     from qats import TimeSeries
@@ -304,28 +1024,92 @@ def run(chk):
         if len(cyc) == 0:
             continue
         nb = rng.choice([1, 5, 256])
-        r, c = calculate_rfc({"s": ts}, (0.0, float(n)), None, nb)["s"]
-        exp = rebin(cyc, binby="range", n=nb)
         chk.count("calculate_rfc")
-        if not (np.allclose(np.array(r), exp[:, 0]) and np.allclose(np.array(c), exp[:, 2]) and abs(sum(c) - cyc[:, 2].sum()) < 1e-9):
+        inp = dict(kind="calculate_rfc", x=x.tolist(), nb=nb)
+        try:
+            r, c = calculate_rfc({"s": ts}, (0.0, float(n)), None, nb)["s"]
+            exp = rebin(cyc, binby="range", n=nb)
+        except Exception as e:
+            chk.fail("GUI cycle histogram must not raise for a series with cycles", inp, "histogram", "%s: %s" % (type(e).__name__, str(e)[:80]),
+                     clause="raise")
+            continue
+        if not (len(r) == len(exp) and np.allclose(np.array(r), exp[:, 0]) and np.allclose(np.array(c), exp[:, 2]) and abs(sum(c) - cyc[:, 2].sum()) < 1e-9):
             chk.fail("GUI cycle histogram == rebin(count_cycles(x), n): (range mid-points, counts), total conserved",
-                     dict(n=n, nb=nb), [exp[:, 0].tolist()[:5], exp[:, 2].tolist()[:5]], [list(r)[:5], list(c)[:5]])
+                     inp, [exp[:, 0].tolist()[:5], exp[:, 2].tolist()[:5]], [list(r)[:5], list(c)[:5]])
+    # ---- audit streams: spelling, boundary values, histories, entry points (all judged by the exact-rational reference) ---------------------
+    for label, gen, k in (("case-spelling", gen_case_spelling, 700 if chk.quick else 8000),
+                          ("case-boundary", gen_case_boundary, 700 if chk.quick else 8000),
+                          ("hist", gen_hist, 300 if chk.quick else 3000),
+                          ("entry", gen_entry, 60 if chk.quick else 400)):
+        for _ in range(k):
+            inp = gen(rng)
+            chk.count(label)
+            if inp["kind"] == "case":
+                chk.dist("%s:%s" % (label, inp["form"] if label == "case-spelling" else inp["op"]))
+                if label == "case-spelling":
+                    chk.dist("args:%s" % inp["spec"].get("style"))
+                if len(inp["table"]) >= 2:
+                    chk.nontriv(repr(inp))
+            elif inp["kind"] == "hist":
+                chk.dist("hist:%s" % inp["form"])
+                chk.nontriv(repr(inp))
+            else:
+                chk.dist("entry:%s%s" % (inp["method"], "+then" if inp.get("then") else ""))
+                chk.nontriv(repr(inp))
+            EVAL[inp["kind"]](chk, inp)
 
 
 def replay(rp):
     from qats.fatigue.rainflow import rebin
     inp = rp["input"]
+    if inp.get("kind") in EVAL:
+        sink = Sink()
+        EVAL[inp["kind"]](sink, inp)
+        print("replay: %d failing clause(s)" % len(sink.failing))
+        return 1 if sink.failing else 0
+    if inp.get("kind") == "calculate_rfc":
+        from qats import TimeSeries
+        from qats.app.funcs import calculate_rfc
+        from qats.fatigue.rainflow import count_cycles
+        x = np.array(inp["x"], dtype=float)
+        sink = Sink()
+        try:
+            r, c = calculate_rfc({"s": TimeSeries("s", np.arange(len(x), dtype=float), x)}, (0.0, float(len(x))), None, inp["nb"])["s"]
+            t = [tuple(float(v) for v in row) for row in count_cycles(x)]
+            all_rebin_oracles(sink, t, "range", "n", inp["nb"], [[float(a), None, float(b)] for a, b in zip(r, c)], inp, secondary=False)
+        except Exception as e:
+            sink.fail("GUI cycle histogram must not raise for a series with cycles", inp, "histogram", "%s: %s" % (type(e).__name__, e))
+        print("replay: %d failing clause(s)" % len(sink.failing))
+        return 1 if sink.failing else 0
+    if "nr" in inp and "kind" not in inp:
+        from qats.fatigue.rainflow import mesh
+        t = [tuple(float(Fraction(v)) if isinstance(v, str) else float(v) for v in row) for row in inp["table"]]
+        sink = Sink()
+        try:
+            res = mesh(np.array(t), nr=inp["nr"], nm=inp["nm"])
+            print(np.asarray(res[2]))
+            mesh_oracles(sink, t, inp["nr"], inp["nm"], res, inp)
+        except Exception as e:
+            sink.fail("mesh must not raise on a valid table", inp, "table", "%s: %s" % (type(e).__name__, e))
+        print("replay: %d failing clause(s)" % len(sink.failing))
+        return 1 if sink.failing else 0
     if inp.get("kind") == "container":
         from qats.fatigue.rainflow import mesh
         rows = [tuple(eval(v, {"__builtins__": {}}) for v in row) for row in inp["table"]]
         ref = np.array([[float(v) for v in row] for row in rows])
         mk = {"list of tuples": lambda: [tuple(r) for r in rows], "list of lists": lambda: [list(r) for r in rows],
-              "tuple of tuples": lambda: tuple(tuple(r) for r in rows), "ndarray of integers": lambda: np.array(rows, dtype=int)}[inp["form"]]
-        exp = rebin(ref, binby=inp["binby"], n=inp["n"])
+              "tuple of tuples": lambda: tuple(tuple(r) for r in rows), "ndarray of integers": lambda: np.array(rows, dtype=int),
+              "ndarray of floats": lambda: ref.copy()}[inp["form"]]
         try:
+            exp = rebin(ref, binby=inp["binby"], n=inp["n"])
+            expm = mesh(ref.copy(), nr=inp["n"], nm=2)[2]
             got = rebin(mk(), binby=inp["binby"], n=inp["n"])
-            bad = 0 if np.shape(got) == np.shape(exp) and np.allclose(got, exp, equal_nan=True) else 1
+            gotm = mesh(mk(), nr=inp["n"], nm=2)[2]
+            bad = 0 if np.shape(got) == np.shape(exp) and np.allclose(got, exp, equal_nan=True) and np.allclose(gotm, expm) else 1
             print("expected", exp.tolist(), "observed", np.asarray(got).tolist())
+            sink = Sink()
+            interval_oracles(sink, [tuple(float(v) for v in row) for row in rows], inp["binby"], "n", inp["n"], _rows_out(got), inp)
+            bad += len(sink.failing)
         except Exception as e:
             print("raised", type(e).__name__, e)
             bad = 1
@@ -335,22 +1119,40 @@ def replay(rp):
         from qats.fatigue.rainflow import mesh
         ft = [tuple(float(Fraction(v)) for v in row) for row in inp["table"]]
         arr, bad = np.array(ft), 0
-        for op, n in inp["ops"]:
-            if op == "mesh":
-                got, exp = mesh(arr, nr=n, nm=2)[2], mesh(np.array(ft), nr=n, nm=2)[2]
-            else:
-                got, exp = rebin(arr, binby=op, n=n), rebin(np.array(ft), binby=op, n=n)
-            same = np.allclose(got, exp, equal_nan=True)
-            print(op, n, "same as on a fresh copy of the table:", same)
-            bad += 0 if same else 1
+        sink = Sink()
+        try:
+            for op, n in inp["ops"]:
+                if op == "mesh":
+                    got, exp = mesh(arr, nr=n, nm=2)[2], mesh(np.array(ft), nr=n, nm=2)[2]
+                else:
+                    got, exp = rebin(arr, binby=op, n=n), rebin(np.array(ft), binby=op, n=n)
+                    all_rebin_oracles(sink, ft, op, "n", n, _rows_out(got), inp)
+                same = np.allclose(got, exp, equal_nan=True)
+                print(op, n, "same as on a fresh copy of the table:", same)
+                bad += 0 if same else 1
+        except Exception as e:
+            print("raised", type(e).__name__, e)
+            bad += 1
+        bad += len(sink.failing)
         print("replay: %d failing clause(s)" % bad)
         return 1 if bad else 0
     t = [tuple(float(Fraction(v)) if isinstance(v, str) else float(v) for v in row) for row in inp["table"]]
     kw = dict(n=int(inp["value"])) if inp["kind"] == "n" else dict(w=float(Fraction(inp["value"])) if isinstance(inp["value"], str) else float(inp["value"]))
-    out = rebin(np.array(t), binby=inp["binby"], **kw)
+    try:
+        out = rebin(np.array(t), binby=inp["binby"], **kw)
+    except Exception as e:
+        print("raised", type(e).__name__, e)
+        print("replay: 1 failing clause(s)")
+        return 1
     print(out)
     tot, btot = sum(c for _, _, c in t), float(np.nansum(out[:, 2]))
     print("table total", tot, "binned total", btot)
     bad = 0 if abs(tot - btot) <= 1e-9 * max(1, tot) else 1
+    sink = Sink()
+    try:
+        all_rebin_oracles(sink, t, inp["binby"], inp["kind"], list(kw.values())[0], _rows_out(out), inp)
+    except Exception as e:
+        sink.fail("rebin returns rows (range, mean, count)", inp, "(bins, 3)", "%s: %s" % (type(e).__name__, e))
+    bad = max(bad, len(sink.failing))
     print("replay: %d failing clause(s)" % bad)
     return 1 if bad else 0
